@@ -157,6 +157,14 @@ def pureEval (line : String) : String :=
   | "flow" :: mb :: mm :: ops => flowRun (parseNat mb) (parseNat mm) 0 0 ops []
   | "flowq" :: mb :: mm :: ops => flowqRun (parseNat mb) (parseNat mm) 0 0 0 [] ops []
   | ["push.accepts", st] => if pushAccepts (parseNat st) then "1" else "0"
+  | ["push.dispatch", o] =>
+    -- the dispatcher's reaction to one endpoint behaviour: "close" | "hang" | <status>
+    let oc : Outcome := if o == "close" then .connError else if o == "hang" then .pending else .status (parseNat o)
+    match dispatchTurn 7 oc with
+    | some (.ack _) => "ack"
+    | some (.modify _) => "nack"
+    | some _ => "other"
+    | none => "none"
   | ["name.eq", kind, ha, hb] =>
     let a := bytesOfHex ha
     let b := bytesOfHex hb
